@@ -106,7 +106,8 @@ def run_one(serde):
         if serde:
             deps += 'serde = "1"\n'
         open(os.path.join(c, 'Cargo.toml'), 'w').write('[package]\nname = "ta_traits"\nversion = "0.0.0"\nedition = "2021"\n\n[dependencies]\n' + deps + '\n[workspace]\n')
-        shutil.copy(os.path.join(REPO, 'Cargo.lock'), os.path.join(c, 'Cargo.lock'))
+        if os.path.exists(os.path.join(REPO, 'Cargo.lock')):
+            shutil.copy(os.path.join(REPO, 'Cargo.lock'), os.path.join(c, 'Cargo.lock'))
         prog, asserts = program(serde)
         open(os.path.join(c, 'src', 'main.rs'), 'w').write(prog)
         env = dict(os.environ)
